@@ -6,6 +6,8 @@ mod connref;
 mod conntrace;
 mod cuts;
 mod malformed;
+mod pool;
+mod poolobs;
 mod route;
 mod svc;
 mod util;
@@ -21,6 +23,9 @@ fn main() {
         "connref" => connref::run(rest),
         "conn" => connmc::run(rest),
         "cuts" => cuts::run(rest),
+        "poolobs" => poolobs::run(rest),
+        "pool" => pool::run(rest),
+        "pooltrace" => pool::run_trace(rest),
         "malformed" => malformed::run(rest),
         "route" => route::run(rest),
         "conntrace" => conntrace::run(rest),
